@@ -570,44 +570,16 @@ def rule_helpers(chk):
         chk.undecided('dispatch', 'group-map', node=gm, file=AH, func='_compute_group_map', detail='generator not interpretable: %s' % e)
     scm = M.find_func(cls, 'setup_compiled_module')
     c = [x for x in M.calls(scm) if M.call_name(x) == 'module.AccelerationEval']
-    ok = bool(c) and [compact(a) for a in c[0].args] == ['object.kernel', 'object.all_group.equations', 'object.particle_arrays', 'object.mega_groups']
+    from verif_static import norm as N_
+    ld_ = N_.local_defs(scm.body)
+    ok = bool(c) and [compact(N_.inline(a, ld_)) for a in c[0].args] == ['self.object.kernel', 'self.object.all_group.equations', 'self.object.particle_arrays', 'self.object.mega_groups']
     chk.decide(ok, 'dispatch', 'constructor-arguments', node=scm, file=AH, func='setup_compiled_module',
                detail_bad='compiled AccelerationEval(%s)' % (', '.join(U(a) for a in c[0].args) if c else ''), detail_ok='(kernel, equations, particle_arrays, mega_groups)')
     # regrouping keeps user order
     ae = M.py(AE)
     md = M.find_method(ae, 'MegaGroup', '_make_data')
     rule_regroup(chk)
-    # an equation with sources is filed under each of its sources unless it has no pair code at all
-    ns = [i for i in ast.walk(md) if isinstance(i, ast.If) and 'no_source' in compact(i.test)]
-    okn = len(ns) == 1
-    whyn = 'the no_source test vanished'
-    if okn:
-        t = ns[0].test
-        extra = [v for v in (t.values if isinstance(t, ast.BoolOp) and isinstance(t.op, ast.Or) else [t]) if compact(v) != 'equation.no_source']
-        if isinstance(t, ast.BoolOp) and not isinstance(t.op, ast.Or):
-            okn, whyn = False, 'sourced equations are filed by `%s`' % compact(t)
-        for v in extra:
-            # an extra way into the no-source bucket must rule out every hook that is called per source
-            hooks = set()
-            scope = [v]
-            for c in M.calls(v):
-                nm = M.call_name(c) or ''
-                if nm.startswith('self.'):
-                    f2 = [f for f in ast.walk(ae) if isinstance(f, ast.FunctionDef) and f.name == nm[5:]]
-                    scope += f2
-            for sc_ in scope:
-                for c in M.calls(sc_):
-                    if M.call_name(c) in ('hasattr', 'getattr') and len(c.args) >= 2 and isinstance(c.args[1], ast.Constant):
-                        hooks.add(c.args[1].value)
-            missing = sorted(set(['loop', 'loop_all', 'initialize_pair']) - hooks)
-            if missing:
-                okn, whyn = False, ('equations with sources are also filed as source-less when `%s`, which does not look at %s: their %s is then never called for any source'
-                                    % (compact(v), missing, '/'.join(missing)))
-        body_ok = any(isinstance(l, ast.For) and any(compact(x) == 'equation.sources' for x in ast.walk(l.iter)) for l in ns[0].orelse)
-        if okn and not body_ok:
-            okn, whyn = False, 'a sourced equation is not filed under every one of equation.sources'
-    chk.decide(okn, 'regrouping-preserves-order', 'sourced-equations-reach-their-sources', node=ns[0] if ns else md, file=AE, func='MegaGroup._make_data',
-               detail_bad=whyn, detail_ok='no_source -> source-less bucket; otherwise one entry per source')
+    # (that an equation with sources is filed under each of its sources whatever per-source hook it has is part of the model run: e1, e4..e7 carry one kind of hook each)
     gcode = M.find_method(M.py(EQ), 'CythonGroup', '_get_code')
     l2 = [l for l in ast.walk(gcode) if isinstance(l, ast.For) and compact(l.iter) == 'self.equations']
     chk.decide(bool(l2), 'regrouping-preserves-order', 'calls-in-equation-order', node=gcode, file=EQ, func='CythonGroup._get_code',
